@@ -450,7 +450,11 @@ def _regexp_has_newline(r: str):
         - any-char (.) when the flag (?s) exists
         - spaces (\s)
     """
-    return '\n' in r or '\\n' in r or '\\s' in r or '[^' in r or ('(?s' in r and '.' in r)
+    if '\n' in r or '\\n' in r or '\\s' in r or '[^' in r or ('(?s' in r and '.' in r):
+        return True
+    # Character classes, ranges and other escapes (\D, \W, \x0a, \012, [\t-\r], ...) can match a newline too.
+    # Counting the newlines of a token that has none is harmless, so err on the side of True for them.
+    return '[' in r or re.search(r'\\[^\W_]', r) is not None
 
 
 class LexerState:
